@@ -145,6 +145,8 @@ def run(ctx, rep: Report, deep: bool = False):
                 kind = "roland"
             elif i % 3 != 2:
                 disc = G.random_disc(rng)
+                while i % 2 == 1 and not any(part.volumes for part in disc.partitions):
+                    disc = G.random_disc(rng)  # the program needs a volume to live in
                 # looped samples and programs: state that a listing or an export may consume
                 for part in disc.partitions:
                     for vol in part.volumes:
@@ -152,9 +154,25 @@ def run(ctx, rep: Report, deep: bool = False):
                             if f.kind == "sample" and rng.random() < 0.6:
                                 f.loop_type = rng.choice([0, 1, 3, 4])
                                 f.loops = [G.Loop(at=rng.randrange(1, 5000), coarse=rng.randrange(0, 400), duration=rng.choice([0, 5, 9999, 300])) for _ in range(rng.randint(1, 4))]
+                # a program with velocity zones in the first volume (S152: a listing must not consume what the next one prints)
+                prog_path = None
+                vols_ = [(pi_, v_) for pi_, part in enumerate(disc.partitions) for v_ in part.volumes]
+                if vols_ and i % 2 == 1:
+                    import gen_akai_prog as GP
+
+                    pi_, v_ = vols_[0]
+                    if all(f_.name != "PROG 1" for f_ in v_.files):
+                        v_.files.append(GP.random_program(rng, "PROG 1", nkg=rng.choice([1, 2, 3])))
+                        disc.partitions[pi_].sectors += 2
+                        prog_path = True
                 img, _ = G.serialize(disc, rng)
                 p = s.write("disc.img", img)
                 paths = FA.ls_paths(disc)
+                if prog_path:
+                    vp_ = next((x for x in paths if x.count("/") == 1), None)  # the first volume's path
+                    prog_path = vp_ + "/PROG 1" if vp_ else None
+                    if prog_path:
+                        paths = paths + [prog_path]
                 kind = "akai"
             else:
                 p = cdda_pair(s, rng)
@@ -167,6 +185,9 @@ def run(ctx, rep: Report, deep: bool = False):
             deep_paths = sorted(paths, key=lambda x: -x.count("/"))[:4]
             if deep_paths and i % 2 == 1:
                 t = rng.choice(deep_paths)
+                if kind == "akai" and locals().get("prog_path"):
+                    t = prog_path
+                    rep.feat("program_listed_twice")
                 ops = [("ls", t), ("ls", t), ("export",), ("ls", t), ("export",)] + ops[:2]
             outs, fresh = run_history(rep, p, ops, kind)
             rep.evaluations += 1
@@ -186,7 +207,7 @@ def run(ctx, rep: Report, deep: bool = False):
                             rep.disagreements.append({"family": "akai-history", "op": str(op), "model": m[:500], "impl": fr[:500], "meta": None})
                 rep.feat("model_compared")
     rep.sample({"family": "history", "example": [["ls", "A:"], ["export"], ["ls", "A:/VOL 00"], ["export"]]})
-    rep.required_features = ["akai_histories", "cdda_histories", "roland_histories", "histories_with_repeated_export", "model_compared"]
+    rep.required_features = ["akai_histories", "cdda_histories", "roland_histories", "histories_with_repeated_export", "program_listed_twice", "model_compared"]
 
 
 def search(ctx, rep: Report):
